@@ -101,6 +101,27 @@ func (w *c08World) c08RecreatedAfterDiscard(week string) bool {
 	return false
 }
 
+// c08UploadedBeforeLocalWritten reports whether local/<week>.json was removed by an uploader
+// (after posting it) before local/local.<week>.json had been created: the uploadable report was
+// published, delivered and discarded while the week's local report did not exist yet, so for a
+// moment nothing in the directory said that the week has a report.
+func (w *c08World) c08UploadedBeforeLocalWritten(week string) bool {
+	if w.log == nil {
+		return false
+	}
+	up := filepath.Join(w.dir, "local", week+".json")
+	loc := filepath.Join(w.dir, "local", "local."+week+".json")
+	for _, c := range w.log() {
+		if c.Arg == loc && c.Op == "OpenFile" && c.Arg2 != "0x0" && c.Err == "" {
+			return false // the local report was created first
+		}
+		if c.Arg == up && c.Op == "Remove" && c.Err == "" {
+			return true
+		}
+	}
+	return false
+}
+
 func (w *c08World) post(thread int, url string, body []byte) (int, error) {
 	week := url[strings.LastIndexByte(url, '/')+1:]
 	outcome := "200"
@@ -358,6 +379,9 @@ func TestVerifC08Deliver(t *testing.T) {
 								if q.week == wk && q.outcome == "400" {
 									sig = "recreated-after-4xx"
 								}
+							}
+							if sig == "" && w.c08UploadedBeforeLocalWritten(wk) {
+								sig = "uploaded-before-local-report"
 							}
 						}
 						if sig != "" && vstats.Known(sig) {
@@ -751,6 +775,83 @@ func TestVerifC08Known(t *testing.T) {
 			}
 			t.Fatalf("%s", w.viol)
 		}
+	}()
+	// --- uploaded-before-local-report: A has listed the directory and read the first count file; C creates and
+	// writes local/W.json and is descheduled before creating local/local.W.json; B runs to completion (finds
+	// W.json, deletes the count files, posts W.json, records it, removes it); A resumes: the second count file is
+	// gone, neither report file exists, so it writes a local report from the first file only; C's local report
+	// then fails with "exists".
+	func() {
+		dir, cfg, start, week := c08KnownSetup(t, base)
+		defer os.RemoveAll(dir)
+		w := &c08World{dir: dir, runOf: map[int]int{0: 0, 1: 1, 2: 2}, outcomes: []string{"200", "200", "200"}}
+		ctl := vhook.New()
+		ctl.KeepLog = true
+		ctl.PostFn = w.post
+		ctl.RandFn = newX()
+		w.log = func() []vhook.Call { return ctl.Log }
+		us := []*uploader{}
+		for i := 0; i < 3; i++ {
+			us = append(us, vuUploader(dir, cfg, "v1.2.3", "http://upload.test/upload", start))
+		}
+		a := ctl.Go("A", func() { us[0].Run() })
+		b := ctl.Go("B", func() { us[1].Run() })
+		c := ctl.Go("C", func() { us[2].Run() })
+		ctl.Install()
+		defer vhook.Uninstall()
+		for i := 0; i < 10000 && !a.Done; i++ {
+			ctl.Step(a)
+			if op, arg := c08LastOp(ctl, 0); op == "ReadFile" && strings.HasSuffix(arg, "_1.v1.count") {
+				break
+			}
+		}
+		for i := 0; i < 10000 && !c.Done; i++ {
+			ctl.Step(c)
+			if op, arg := c08LastOp(ctl, 2); op == "File.Close" && arg == filepath.Join(dir, "local", week+".json") {
+				break
+			}
+		}
+		// B until it has deleted the count files (it found C's uploadable report)
+		for i := 0; i < 10000 && !b.Done; i++ {
+			ctl.Step(b)
+			if op, arg := c08LastOp(ctl, 1); op == "Remove" && strings.HasSuffix(arg, "_2.v1.count") {
+				break
+			}
+		}
+		// A finishes listing: the second count file is gone, the upload directory is still empty
+		for i := 0; i < 10000 && !a.Done; i++ {
+			ctl.Step(a)
+			if op, arg := c08LastOp(ctl, 0); op == "ReadDir" && arg == filepath.Join(dir, "upload") {
+				break
+			}
+		}
+		ctl.RunAlone(b, 100000)
+		ctl.RunAlone(a, 100000)
+		ctl.RunAlone(c, 100000)
+		vhook.Uninstall()
+		vstats.Case("fixed schedule: C writes local/W.json; A reads the first count file; B deletes the count files; A finishes listing; B uploads and removes W.json; A writes a partial local report", true, "known-replay")
+		if w.viol != "" {
+			t.Fatalf("%s", w.viol)
+		}
+		data, err := os.ReadFile(filepath.Join(dir, "local", "local."+week+".json"))
+		if err != nil {
+			return // not reproduced
+		}
+		var rep telemetry.Report
+		if json.Unmarshal(data, &rep) != nil {
+			t.Fatalf("local report is not JSON: %q", data)
+		}
+		total := int64(0)
+		for _, p := range rep.Programs {
+			total += p.Counters["a/b"]
+		}
+		if total == 3 {
+			return // complete: repaired
+		}
+		if w.c08RecreatedAfterDiscard(week) && w.c08UploadedBeforeLocalWritten(week) && vstats.Known("uploaded-before-local-report") {
+			return
+		}
+		t.Fatalf("local report for %s holds a/b = %d, the week's two files hold 3", week, total)
 	}()
 }
 
